@@ -116,6 +116,12 @@ pub struct World {
     /// alive until `helper_hold` is cleared (keeps the query in computing state after it returned)
     pub helper_node: AtomicU64,
     pub helper_hold: AtomicBool,
+    /// single-flight oracle: keys whose executor is running right now, and how often a second
+    /// executor for the same key was started meanwhile
+    pub executing: Mutex<std::collections::HashSet<u64>>,
+    pub concurrent_same_key: AtomicU64,
+    /// executors yield this many times before returning (widens the windows in stress runs)
+    pub exec_yields: AtomicU64,
 }
 pub fn trace_on() -> bool { static T: std::sync::OnceLock<bool> = std::sync::OnceLock::new(); *T.get_or_init(|| std::env::var("QV_TRACE").is_ok()) }
 pub fn node_code(n: Node) -> u64 { ((n.kind as u64) << 32) | n.idx as u64 }
@@ -125,6 +131,7 @@ impl World {
             prog, ext: (0..n_ext).map(|_| AtomicI64::new(0)).collect(), log: Mutex::new(Vec::new()),
             panic_node: AtomicU64::new(u64::MAX), stall_node: AtomicU64::new(u64::MAX), stall: AtomicBool::new(false),
             exec_count: AtomicU64::new(0), helper_node: AtomicU64::new(u64::MAX), helper_hold: AtomicBool::new(false),
+            executing: Mutex::new(Default::default()), concurrent_same_key: AtomicU64::new(0), exec_yields: AtomicU64::new(0),
         })
     }
     pub fn take_log(&self) -> Vec<Event> { std::mem::take(&mut *self.log.lock().unwrap()) }
@@ -187,7 +194,13 @@ fn eval<'a, C: Config>(w: &'a World, me: Node, e: &'a Expr, engine: &'a TrackedE
     })
 }
 
+struct Executing<'a>(&'a World, u64);
+impl Drop for Executing<'_> { fn drop(&mut self) { self.0.executing.lock().unwrap().remove(&self.1); } }
+
 async fn run_node<C: Config>(w: &World, me: Node, engine: &TrackedEngine<C>) -> i64 {
+    if !w.executing.lock().unwrap().insert(node_code(me)) { w.concurrent_same_key.fetch_add(1, Ordering::SeqCst); }
+    let _running = Executing(w, node_code(me));
+    for _ in 0..w.exec_yields.load(Ordering::Relaxed) { tokio::task::yield_now().await; }
     w.log.lock().unwrap().push(Event::Exec(me));
     w.exec_count.fetch_add(1, Ordering::SeqCst);
     if trace_on() { eprintln!("      exec {}", me.short()); }
